@@ -219,8 +219,8 @@ pub enum Act {
     // peer frames
     PConnect(u8),
     PConnack(u8),
-    PPub { q: u8, id: u32, dup: bool, t: u8, al: Al, rep_err: bool },
-    PAck { kind: AckKind, id: u32, err: bool, defer: bool },
+    PPub { q: u8, id: u32, dup: bool, t: u8, al: Al, rep: u8 },
+    PAck { kind: AckKind, id: u32, err: bool, defer: bool, nomatch: bool },
     /// deferred manual PUBREL for an exchange whose PUBREC was received earlier
     Pubrel(u32),
     PSub(u32),
@@ -257,7 +257,7 @@ pub fn act_kind(a: &Act) -> String {
         Act::PConnect(_) => "PConnect".into(),
         Act::PConnack(_) => "PConnack".into(),
         Act::PPub { q, al, dup, .. } => format!("PPub(q{}{}{})", q, if *dup { ",dup" } else { "" }, match al { Al::No => "", Al::Reg(_) => ",reg-alias", Al::Use(_) => ",use-alias" }),
-        Act::PAck { kind, err, defer, .. } => format!("P{}{}{}", kind.name(), if *err { "(err)" } else { "" }, if *defer { "(reply deferred)" } else { "" }),
+        Act::PAck { kind, err, defer, nomatch, .. } => format!("P{}{}{}{}", kind.name(), if *err { "(err)" } else { "" }, if *nomatch { "(0x10)" } else { "" }, if *defer { "(reply deferred)" } else { "" }),
         Act::Pubrel(_) => "Pubrel(deferred)".into(),
         Act::PSub(_) => "PSub".into(),
         Act::PUnsub(_) => "PUnsub".into(),
@@ -543,7 +543,7 @@ impl<P: Pid> Ep<P> {
     }
 
     /// the application's mandatory replies to what one recv call notified (manual mode)
-    fn app_replies(&mut self, call: &Call, rep_err: bool, defer: bool, calls: &mut Vec<Call>) {
+    fn app_replies(&mut self, call: &Call, rep: u8, defer: bool, calls: &mut Vec<Call>) {
         if self.m.close_pending || call.has_close() {
             return;
         }
@@ -551,10 +551,11 @@ impl<P: Pid> Ep<P> {
         for ap in call.recvs().into_iter().cloned().collect::<Vec<_>>() {
             match &ap {
                 AP::Publish { qos: 1, pid: Some(id), .. } if !self.cfg.auto_pub => {
-                    calls.push(self.lib_send(&AP::Ack { ver, kind: AckKind::Puback, pid: *id, code: None, props: None }));
+                    let code = if ver == Ver::V5 { match rep { 1 => Some(0x10), 2 => Some(0x80), _ => None } } else { None };
+                    calls.push(self.lib_send(&AP::Ack { ver, kind: AckKind::Puback, pid: *id, code, props: None }));
                 }
                 AP::Publish { qos: 2, pid: Some(id), .. } if !self.cfg.auto_pub => {
-                    let code = if rep_err && ver == Ver::V5 { Some(0x80) } else { None };
+                    let code = if ver == Ver::V5 { match rep { 1 => Some(0x10), 2 => Some(0x80), _ => None } } else { None };
                     calls.push(self.lib_send(&AP::Ack { ver, kind: AckKind::Pubrec, pid: *id, code, props: None }));
                 }
                 AP::Ack { kind: AckKind::Pubrel, pid, .. } if !self.cfg.auto_pub => {
@@ -735,11 +736,11 @@ impl<P: Pid> Ep<P> {
             }
             Act::PConnack(i) => self.cfg.connacks[*i as usize].ap(ver),
             Act::PPub { q, id, dup, t, al, .. } => self.publish_ap(*q, *t, *al, if *q > 0 { Some(*id) } else { None }, *dup),
-            Act::PAck { kind, id, err, .. } => AP::Ack {
+            Act::PAck { kind, id, err, nomatch, .. } => AP::Ack {
                 ver,
                 kind: *kind,
                 pid: *id,
-                code: if *err && ver == Ver::V5 { Some(if matches!(kind, AckKind::Pubrel | AckKind::Pubcomp) { 0x92 } else { 0x80 }) } else { None },
+                code: if *err && ver == Ver::V5 { Some(if matches!(kind, AckKind::Pubrel | AckKind::Pubcomp) { 0x92 } else { 0x80 }) } else if *nomatch && ver == Ver::V5 { Some(0x10) } else { None },
                 props: None,
             },
             Act::PSub(id) => AP::Subscribe { ver, pid: *id, props: vec![], entries: vec![(b"f".to_vec(), 0)] },
@@ -900,9 +901,9 @@ impl<P: Pid> World for Ep<P> {
                                 continue;
                             }
                             for dup in if al.peer_dup && q > 0 { vec![false, true] } else { vec![false] } {
-                                let errs = if q == 2 && al.reply_err && !c.auto_pub && self.v5() { vec![false, true] } else { vec![false] };
-                                for rep_err in errs {
-                                    v.push(Act::PPub { q, id, dup, t: t as u8, al: a, rep_err });
+                                let reps: Vec<u8> = if q > 0 && al.reply_err && !c.auto_pub && self.v5() { vec![0, 1, 2] } else { vec![0] };
+                                for rep in reps {
+                                    v.push(Act::PPub { q, id, dup, t: t as u8, al: a, rep });
                                 }
                             }
                         }
@@ -911,12 +912,14 @@ impl<P: Pid> World for Ep<P> {
             }
             for &k in &al.peer_acks {
                 for &id in &al.peer_ack_ids {
-                    v.push(Act::PAck { kind: k, id, err: false, defer: false });
+                    v.push(Act::PAck { kind: k, id, err: false, defer: false, nomatch: false });
                     if k == AckKind::Pubrec && al.defer_pubrel && !c.auto_pub && m.ids.get(&id) == Some(&Owner::Pub2) {
-                        v.push(Act::PAck { kind: k, id, err: false, defer: true });
+                        v.push(Act::PAck { kind: k, id, err: false, defer: true, nomatch: false });
                     }
                     if al.peer_ack_err && self.v5() && matches!(k, AckKind::Puback | AckKind::Pubrec) {
-                        v.push(Act::PAck { kind: k, id, err: true, defer: false });
+                        v.push(Act::PAck { kind: k, id, err: true, defer: false, nomatch: false });
+                        // success-class reason code other than 0x00 ("No matching subscribers")
+                        v.push(Act::PAck { kind: k, id, err: false, defer: false, nomatch: true });
                     }
                 }
             }
@@ -1091,7 +1094,7 @@ impl<P: Pid> World for Ep<P> {
                     }
                 }
                 let frame = rc::encode(&ap, P::W);
-                let rep_err = matches!(a, Act::PPub { rep_err: true, .. });
+                let rep_err: u8 = if let Act::PPub { rep, .. } = a { *rep } else { 0 };
                 let defer = matches!(a, Act::PAck { defer: true, .. });
                 self.m.link_up = true;
                 let rcalls = self.lib_recv_frame(frame, Some(ap));
